@@ -52,30 +52,37 @@ func origin(v ssa.Value, conv bool, depth int, seen map[*ssa.Phi]bool) ssa.Value
 			}
 			v = st.Val
 		case *ssa.Phi:
-			// phi of identical origins
+			// phi of identical origins; phis currently being resolved
+			// (cycles through loop headers) are ignored as self-references
 			if seen[x] {
 				return v
 			}
 			if seen == nil {
 				seen = map[*ssa.Phi]bool{}
 			}
+			if len(seen) > 24 {
+				return v
+			}
 			seen[x] = true
 			var first ssa.Value
+			same := true
 			for _, e := range x.Edges {
 				o := origin(e, conv, depth, seen)
 				if o == x {
 					continue
 				}
-				if p2, ok := o.(*ssa.Phi); ok && seen[p2] {
-					continue
+				if p2, ok := o.(*ssa.Phi); ok && seen[p2] && p2 != x {
+					continue // in progress further up: a cycle back to it
 				}
 				if first == nil {
 					first = o
 				} else if first != o {
-					return v
+					same = false
+					break
 				}
 			}
-			if first == nil {
+			delete(seen, x)
+			if !same || first == nil {
 				return v
 			}
 			return first
